@@ -976,8 +976,9 @@ func (self *Analyzer) callExpression(node pAst.CallExpression) ast.AnalyzedCallE
 	}
 
 	// If this is a thread spawn, create a thread handle as the result
+	// (only if the callee has a result type: otherwise, an error was already reported)
 	// TODO: migrate this to the `core-lib` and reference the type from here
-	if node.IsSpawn {
+	if node.IsSpawn && thisExpressionResultsIn != nil {
 		thisExpressionResultsIn = ast.NewObjectType([]ast.ObjectTypeField{
 			ast.NewObjectTypeField(
 				pAst.NewSpannedIdent("join", node.Span()), ast.NewFunctionType(
